@@ -54,13 +54,37 @@ inductive Call where
   | ctl (c : Ctl)
 deriving DecidableEq, Repr, Inhabited
 
+/-- `test_status` of a stream event -/
+inductive Status where
+  | inprogress | success | fail | skip | xfail | uxsuccess
+deriving DecidableEq, Repr, Inhabited
+
+/-- what a stream event carries besides its test id: a status, or a chunk of an attached file -/
+inductive SKind where
+  | st (s : Status)
+  | file (eof : Bool)
+deriving DecidableEq, Repr, Inhabited
+
+/-- a `status(...)` event as it reaches the caller's StreamResult: route code (= worker), test id, payload -/
+structure SEv where
+  w : Nat
+  id : TId
+  kind : SKind
+deriving DecidableEq, Repr, Inhabited
+
 /-- what travels through the completion queue of the concurrent suites (C13) -/
 inductive Item where
-  | fin (w : Nat)                                   -- ConcurrentTestSuite: the finished sub-suite
-  | startRun (w : Nat)                              -- StreamToQueue.startTestRun
-  | stopRun (w : Nat)                               -- StreamToQueue.stopTestRun
-  | status (w : Nat) (id : TId) (st : Nat) (file : Bool)  -- StreamToQueue.status (route code = worker)
+  | fin (w : Nat)          -- ConcurrentTestSuite: the finished sub-suite
+  | startRun (w : Nat)     -- StreamToQueue.startTestRun
+  | stopRun (w : Nat)      -- StreamToQueue.stopTestRun
+  | status (e : SEv)       -- StreamToQueue.status
 deriving DecidableEq, Repr, Inhabited
+
+def Item.owner : Item → Nat
+  | .fin w => w
+  | .startRun w => w
+  | .stopRun w => w
+  | .status e => e.w
 
 /-- one operation of a thread on its own forwarder -/
 inductive Op where
@@ -191,6 +215,24 @@ deriving DecidableEq, Repr, Inhabited
 
 def secSteps (s : Section) : List Step := .acq :: (s.map (fun p => Step.call p.1 p.2) ++ [.rel])
 def progSteps (p : List Section) : List Step := (p.map secSteps).flatten
+
+/-- a thread program between two scheduling-relevant boundaries: a whole critical section, or a `put` -/
+inductive Seg where
+  | sec (s : Section)
+  | put (x : Item)
+deriving Repr
+
+def callSteps (s : Section) : List Step := s.map fun p => Step.call p.1 p.2
+
+def segSteps : List Seg → List Step
+  | [] => []
+  | .sec s :: r => Step.acq :: (callSteps s ++ Step.rel :: segSteps r)
+  | .put x :: r => Step.put x :: segSteps r
+
+def segSecs : List Seg → List Section
+  | [] => []
+  | .sec s :: r => s :: segSecs r
+  | .put _ :: r => segSecs r
 
 /-- observable events of the shared objects (semaphore and target), tagged with the acting thread -/
 inductive EvK where
